@@ -19,6 +19,18 @@ import (
 func selftestCmd(verifDir, repoDir string, names []string) int {
 	all, _ := filepath.Glob(filepath.Join(verifDir, "mutants", "*.diff"))
 	sort.Strings(all)
+	// seeded/<id>/patch.diff can be selected by id (or "seeded" for all of them); they run on a scratch
+	// copy here - tools/run_seeded.sh is the variant that applies them to /repo itself
+	seeded, _ := filepath.Glob(filepath.Join(verifDir, "seeded", "*", "patch.diff"))
+	sort.Strings(seeded)
+	for _, p := range seeded {
+		id := filepath.Base(filepath.Dir(p))
+		for _, n := range names {
+			if n == id || n == "seeded" {
+				all = append(all, p)
+			}
+		}
+	}
 	want := map[string]bool{}
 	for _, n := range names {
 		want[n] = true
@@ -34,7 +46,13 @@ func selftestCmd(verifDir, repoDir string, names []string) int {
 	var rows []row
 	for _, p := range all {
 		name := strings.TrimSuffix(filepath.Base(p), ".diff")
-		if len(want) > 0 && !want[name] && !want[strings.SplitN(name, "_", 2)[0]] {
+		isSeeded := filepath.Base(p) == "patch.diff"
+		expectSilent := strings.HasPrefix(name, "n")
+		if isSeeded {
+			name = filepath.Base(filepath.Dir(p))
+			meta, _ := os.ReadFile(filepath.Join(filepath.Dir(p), "meta.json"))
+			expectSilent = strings.Contains(string(meta), `"expect": "silent"`)
+		} else if len(want) > 0 && !want[name] && !want[strings.SplitN(name, "_", 2)[0]] {
 			continue
 		}
 		scratch := newScratch()
@@ -65,7 +83,7 @@ func selftestCmd(verifDir, repoDir string, names []string) int {
 			}
 		}
 		expect := "detect"
-		if strings.HasPrefix(name, "n") {
+		if expectSilent {
 			expect = "silent"
 		}
 		got := map[int]string{0: "silent", 1: "detect", 2: "harness-error"}[code]
